@@ -693,26 +693,34 @@ FUEL_30_120 = (30.0, 120.0, 175.0)
                        "closeness of the control boundaries relative to the fuel boundaries is a solver path; coincide: "
                        "one control boundary sits exactly on a fuel boundary; cap: every fuel assembly carries a cap block "
                        "of symbolic thickness in [0.05,30] cm above its plenum (the top-most cell of the assemblies' own "
-                       "mesh may be thinner than the minimum); foot: the same with a foot block below the reflector", stubs=STUBS_CORE, qtimeout_ms=30000,
+                       "mesh may be thinner than the minimum); foot: the same with a foot block below the reflector; control=False: "
+                       "the core holds the fuel assemblies only (no control assembly anywhere)", stubs=STUBS_CORE, qtimeout_ms=30000,
          instances={"quick": [dict(fuel=FUEL_25_125), dict(fuel=FUEL_25_125, coincide="bottomOnFuelTop"),
-                              dict(fuel=FUEL_25_125, coincide="bottomOnFuelTop", cap=True)],
+                              dict(fuel=FUEL_25_125, coincide="bottomOnFuelTop", cap=True),
+                              dict(fuel=FUEL_25_125, cap=True, foot=True, control=False)],
                     "thorough": [dict(fuel=FUEL_25_125, cap=True), dict(fuel=FUEL_25_125, coincide="bottomOnFuelTop", foot=True),
                                  dict(fuel=FUEL_25_125, foot=True), dict(fuel=FUEL_25_125, coincide="topOnFuelTop"),
                                  dict(fuel=FUEL_25_125, coincide="bottomOnFuelBottom"),
                                  dict(fuel=FUEL_SHORT), dict(fuel=FUEL_25_125, fuel2=FUEL_30_120),
                                  dict(fuel=FUEL_25_125, fuel2=FUEL_30_120, coincide="bottomOnFuelTop")]})
-def decusped_common_mesh_keeps_material_boundaries(ctx, fuel, fuel2=None, coincide=None, cap=False, foot=False):
+def decusped_common_mesh_keeps_material_boundaries(ctx, fuel, fuel2=None, coincide=None, cap=False, foot=False,
+                                                   control=True):
     meshes = [fuel, fuel2 or fuel]
     H = fuel[2]
     fbs, fts = sorted(set(f[0] for f in meshes)), sorted(set(f[1] for f in meshes))
     fb, ft = fbs[0], fts[-1]            # lowest fuel bottom, highest fuel top: the primary anchors
     r, core, assems = _build.mk_core([(0, 0), (1, 0)], nblocks=3 + bool(cap) + bool(foot))
     ctrl = _build.mk_assembly(6 if cap or foot else 4, name="control")
-    core.add(ctrl, core.spatialGrid[2, 0, 0])
+    if control:
+        core.add(ctrl, core.spatialGrid[2, 0, 0])
+    else:
+        # a core WITHOUT any control assembly: the minimum size and the fuel anchors apply all the same
+        coincide = "no control assembly"
     # (a control boundary that `coincide` puts on a fuel boundary is no input: the recorded findings ask whether
     # 'ctrlBottom' / 'ctrlTop' is among the inputs)
-    cb = ctx.real("ctrlBottom", 1.0, H - 2.0) if coincide not in ("bottomOnFuelTop", "bottomOnFuelBottom") else None
-    ct = ctx.real("ctrlTop", 2.0, H - 1.0) if coincide != "topOnFuelTop" else None
+    cb = ctx.real("ctrlBottom", 1.0, H - 2.0) if control and coincide not in ("bottomOnFuelTop", "bottomOnFuelBottom") \
+        else None
+    ct = ctx.real("ctrlTop", 2.0, H - 1.0) if control and coincide != "topOnFuelTop" else None
     m = ctx.real("minSize", 0.1, 30.0)
     extra = []                          # symbolic points of the fuel assemblies' own mesh (besides the fuel boundaries)
     if cap:
@@ -731,27 +739,30 @@ def decusped_common_mesh_keeps_material_boundaries(ctx, fuel, fuel2=None, coinci
         ct = ft
     elif coincide == "bottomOnFuelBottom":
         cb = fb
-    ctx.assume(ct - cb >= 1.0)
+    if control:
+        ctx.assume(ct - cb >= 1.0)
     freeCtrl = [x for x, fixed in ((cb, ("bottomOnFuelTop", "bottomOnFuelBottom")), (ct, ("topOnFuelTop",)))
-                if coincide not in fixed]                    # the control boundaries that are inputs
+                if control and coincide not in fixed]        # the control boundaries that are inputs
     for a, pts in zip(assems, meshes):
         for b, t in zip(a, ["grid plate"] * len(low) + ["reflector", "fuel"] + ["plenum"] * (1 + len(extra))):
             b.setType(t)
         point_mesh(ctx, a, [0.0] + low + list(pts[:2]) + extra + [pts[2]], "fuel assembly")
     for b, t in zip(ctrl, ("duct", "control", "plenum", "plenum", "plenum", "plenum")):
         b.setType(t)
-    ctrlPlenum = [ct + (H - ct) * k / (len(ctrl) - 2) for k in range(1, len(ctrl) - 2)]
-    for x in ctrlPlenum:
-        for e in extra + low:
-            ctx.assume(x != e)      # (these points of the control assembly's own mesh are no candidates)
-    point_mesh(ctx, ctrl, [0.0, cb, ct] + ctrlPlenum + [H], "control assembly")
+    if control:
+        ctrlPlenum = [ct + (H - ct) * k / (len(ctrl) - 2) for k in range(1, len(ctrl) - 2)]
+        for x in ctrlPlenum:
+            for e in extra + low:
+                ctx.assume(x != e)      # (these points of the control assembly's own mesh are no candidates)
+        point_mesh(ctx, ctrl, [0.0, cb, ct] + ctrlPlenum + [H], "control assembly")
     for a in core:
         a.p.AziMesh = a.p.RadMesh = 1
         for b in a:
             b.p.axMesh = 1
     ctx.check("flags of the mini core as intended",
               AND(all(a.hasFlags(Flags.FUEL) for a in assems), ctrl.hasFlags(Flags.CONTROL),
-                  len(ctrl.getBlocks(Flags.CONTROL)) == 1, all(len(a.getBlocks(Flags.FUEL)) == 1 for a in assems)))
+                  len(ctrl.getBlocks(Flags.CONTROL)) == 1, all(len(a.getBlocks(Flags.FUEL)) == 1 for a in assems),
+                  len(core.getAssemblies(Flags.CONTROL)) == (1 if control else 0)))
     plain = UniformMeshGenerator(r, minimumMeshSize=None)
     plain.generateCommonMesh()
     avg = [x if isinstance(x, Sym) else float(x) for x in plain._commonMesh]
@@ -794,7 +805,7 @@ def decusped_common_mesh_keeps_material_boundaries(ctx, fuel, fuel2=None, coinci
                   "minimum" % name, IMPLIES(free, OR(*[x == c for x in mesh])))
     topKept = mesh[-1] == H
     firstCell = OR(mesh[0] >= m, mesh[0] == fb)        # (a fuel anchor below the minimum is kept all the same)
-    if KNOWN_DEFECT_decusp_ignores_assembly_ends:
+    if KNOWN_DEFECT_decusp_ignores_assembly_ends and control:
         topKept = IMPLIES(H - ct >= m, topKept)
         firstCell = IMPLIES(cb >= m, firstCell)
     if KNOWN_DEFECT_decusp_thin_first_cell and low:
